@@ -17,7 +17,7 @@ from ..strdom import Str, ext, SELF
 from .C01 import booking_units, unique_guard
 from .C11 import external_sector_guards
 
-TECHNIQUE = ('static analysis: effect extraction of the FX primitives and their callers; Laurent-polynomial normalisation of the valued FX position with the cross-rate definition substituted; feasible-path search with ExternalSector bound to None for the external-sector guard')
+TECHNIQUE = ('static analysis: effect extraction of the FX primitives and their callers; Laurent-polynomial normalisation of the valued FX position with the cross-rate definition substituted; feasible-path search with ExternalSector bound to None for the external-sector guard; Laurent monomial of the local gold price; ledger clauses of C01.R1 and the currency-equality clause of C18.R3 recorded as R2 / R4')
 EXPLANATION = (
     'The two FX primitives and every unit that calls them are interpreted abstractly; the FX intermediary\'s entries are valued '
     'at the rate variables (NET_c * XR_c, numeraire at 1), the cross-rate definition emitted by GetCrossRate is substituted and '
@@ -188,6 +188,25 @@ def run(prog, check):
                      'the local gold price is defined as %s: it is not the numeraire price converted at the rate of the buyer\'s currency, so the '
                      'gold received is not worth the currency paid' % e.rhs.show(),
                      'a gold purchase with a rate and a gold price different from 1.0')
+    # the payment for gold arrives: the intermediary passes -amount*rate on in the numeraire, the gold sector's own net position
+    # (an added term on a variable of the gold sector itself) takes up +rate*amount - the two numeraire legs are paired
+    if gm is not None:
+        flows_ = [e for e in itg.effects if e.kind == 'cashflow' and e.role != SELF]
+        adds_ = [e for e in itg.effects if e.kind == 'def' and e.role == SELF and e.mode == 'addterm' and e.rhs is not None]
+        if flows_:
+            okn = False
+            for e in adds_:
+                rd2 = Reader(SELF)
+                pa = rd2.read(e.rhs)
+                if len(pa.terms) == 1 and not rd2.problems:
+                    (mono2, coef2), = pa.terms.items()
+                    owners2 = {a_[1] for a_, _x in mono2 if a_[0] == 'var'}
+                    if coef2 == Fraction(1) and len(mono2) == 2 and all(x_ == 1 for _a, x_ in mono2) and flows_[0].role.key() in owners2:
+                        okn = True
+            check.ob('C07.R3', '%s::gold-payment-received-in-the-numeraire' % gm.key, okn, gm.where,
+                     'the gold sector\'s net position takes up rate * amount for every purchase' if okn else
+                     'no term `rate * amount` is added to a variable of the gold sector: the payment the intermediary passes on in the numeraire '
+                     'is received by nobody', 'an unpaired gold purchase at a rate different from 1.0')
     # ---- R4 ----------------------------------------------------------------------------------------
     n = external_sector_guards(prog, check, 'C07.R4')
     if n < 4:
@@ -201,13 +220,13 @@ def run(prog, check):
         from . import C01 as _c01
         b01 = Borrowed(check, lambda rule, key: rule == 'C01.R1' and ('extsector()' in key or 'ext(XR)' in key or 'samezone(' in key), 'C07.R2',
                        'a gold purchase / cross-currency flow: payer debited x, intermediary credited x in the same currency')
-        _c01.run(prog, b01)
+        b01.run_lender(_c01, prog)
     # which flows cross a currency boundary is decided by the identity of the currency codes (the clause C18.R3 decides: equality only)
     if not getattr(check, '_borrowing', False):
         from . import C18 as _c18
         b18 = Borrowed(check, lambda rule, key: rule == 'C18.R3' and 'currency-identity-is-equality' in key, 'C07.R4',
                        "currencies 'AUS' and 'US': a flow between them must be converted, or refused without an external sector")
-        _c18.run(prog, b18)
+        b18.run_lender(_c18, prog)
     check.floor('C07.R1', 3)
     check.floor('C07.R2', 4)
     check.floor('C07.R3', 2)
